@@ -69,7 +69,7 @@ def known_findings(pid):
                 for tok in body.split(" "):
                     if "=" in tok and not d.get("_text_started"):
                         k, v = tok.split("=", 1)
-                        if k in ("property", "obligation", "twin"):
+                        if k in ("property", "obligation", "twin", "replay"):
                             d[k] = v
                             continue
                     d["_text_started"] = True
@@ -162,21 +162,28 @@ def main():
     # searches a concrete failing input against the real code; only if one is found is it reported as a violation
     # (with that input). Without a confirmed input it stays undecided (exit 2) -- never an alarm.
     base = load_baseline()
+    searched = {}
     for (n, mod, mm, fm, v) in wanted:
-        if v and v["status"] == "undecided" and v.get("errors") and all(e["kind"] == "rlimit" for e in v["errors"]):
+        if v and v["status"] == "undecided":
             b = base.get(obl_key(n, mm, fm))
-            if b and fm.get("sha256") and b.get("sha256") != fm.get("sha256"):
-                cex = None
+            changed = (mm.get("mode") == "lost") or (b is not None and fm.get("sha256") and b.get("sha256") != fm.get("sha256")) \
+                or (b is not None and not fm.get("sha256"))
+            if not changed:
+                continue
+            key = (mm.get("file"), mm.get("header"), fm.get("display", fm.get("fn")))
+            if key not in searched:
                 try:
                     from vx import replay as vreplay
-                    cex = vreplay.search(pid, n, mm, fm, seed)
+                    searched[key] = vreplay.search(pid, n, mm, fm, seed)
                 except Exception as e:
-                    cex = None
-                if cex and cex.get("input"):
-                    v["status"] = "failed"
-                    v["cex"] = cex
-                    v["errors"].append(dict(kind="verif", title=f"resource limit exceeded on changed text (baseline used rlimit {b.get('rlimit')}); failing input found by replay",
-                                            text=json.dumps(cex)[:1500], lines=[], cover=False))
+                    searched[key] = {}
+            cex = searched[key]
+            if cex and cex.get("input"):
+                why = "; ".join(e.get("title", "") for e in v.get("errors", []))[:200]
+                v["status"] = "failed"
+                v["cex"] = cex
+                v.setdefault("errors", []).append(dict(kind="verif", title=f"obligation on changed text could not be discharged ({why}) and a failing input was found by replay",
+                                                       text=json.dumps(cex)[:1500], lines=[], cover=False))
     failed = [(n, mod, mm, fm, v) for (n, mod, mm, fm, v) in wanted if v and v["status"] == "failed"]
     failed += [(o["unit"], "", dict(file=o.get("file", ""), header=None), dict(fn=o["name"]),
                 dict(status="failed", errors=[dict(kind="verif", title=o.get("detail", ""), text=o.get("detail", ""))]))
@@ -224,7 +231,22 @@ def main():
     for (n, mod, mm, fm, v) in failed:
         oid = f"{n}::{norm_hdr(mm.get('header'))}::{fm.get('display', fm['fn'])}{fm.get('variant', '')}"
         if oid in kf_obl:
-            kf_lines.append((oid, kf_obl[oid]))
+            k = kf_obl[oid]
+            ok = True
+            if k.get("replay"):
+                # the recorded concrete input is replayed against the real code; the finding is only accepted as
+                # "known" while it still reproduces
+                try:
+                    from vx import replay as vreplay
+                    ok = vreplay.known_finding_reproduces(k["replay"])
+                except Exception:
+                    ok = None
+            if ok:
+                kf_lines.append((oid, k))
+            elif ok is None:
+                undec.append(f"known finding {oid}: replay could not be run")
+            else:
+                real_fail.append((n, mod, mm, fm, v, oid))
         else:
             real_fail.append((n, mod, mm, fm, v, oid))
 
